@@ -65,10 +65,18 @@ def valid_name(n):
             '/' not in n and '\\' not in n)
 
 
+# character sequences that mean something in the build tools' own languages
+TOKENS = ['${x}', '${in}', '${out}', '$x', '$in', '$$', '$@', '$<', '$^',
+          '$(x)', '$(@D)', '%.c', '%%', '$ ', ' $', '$:', '#{x}', '{a,b}']
+
+
 @st.composite
 def names(draw):
-    k = draw(st.integers(0, 3))
-    if k == 0:
+    k = draw(st.integers(0, 4))
+    if k == 4:
+        n = draw(st.sampled_from(['', 'a', 'ab'])) + \
+            draw(st.sampled_from(TOKENS)) + draw(st.sampled_from(['', 'c']))
+    elif k == 0:
         n = 'xy' + draw(st.sampled_from(ALPHABET)) + 'z'
     elif k == 1:
         n = draw(st.sampled_from(ALPHABET)) + draw(st.sampled_from(
@@ -645,7 +653,8 @@ def sweep_cases():
     return out
 
 
-CORE_NAMES = ['a b', 'a$b', 'a#b', 'ab:c', 'a%b', '-ab', '~ab', 'a b/c d']
+CORE_NAMES = ['a b', 'a$b', 'a#b', 'ab:c', 'a%b', '-ab', '~ab', 'a b/c d',
+              'a${x}b', 'a$$b']
 
 
 LEADING = '~-=+@#.:%!&^,'
